@@ -11,6 +11,7 @@ import functools
 import itertools
 import re
 
+from vcheck import argtypes
 from vcheck import core
 from vcheck import hypmemo
 from vcheck.core import Task, Violation
@@ -20,6 +21,8 @@ LEVEL = 'exploration'
 BUDGET = {'quick': 45, 'thorough': 420}
 # deterministic sub-checks repeated in a `python -O` child (core.optimized_child)
 OPT_SUBS = ('conv/exhaustive', 'compat/chain', 'predicate/table', 'conv/suffix', 'predicate/malformed')
+# sub-checks repeated with str / int arguments as subclass instances
+SUBCLASS_SUBS = ('conv/exhaustive', 'compat/chain', 'predicate/table', 'conv/suffix', 'predicate/malformed')
 # documented call interface the generated calls rely on (vcheck/callstyle.py)
 INTERFACE = [('oslo_utils.versionutils', None)]
 RULE = ('conv/*: every component tuple of length 1..5 over {0,1,9,10,99,100,'
@@ -75,7 +78,7 @@ def _nontrivial_tuple(t):
 
 def _call(fn, *a):
     try:
-        return ('ok', fn(*a))
+        return ('ok', fn(*argtypes.maybe_all(a)))
     except ValueError:
         return ('ValueError', None)
     except Exception as e:
